@@ -61,6 +61,7 @@ type Obligation struct {
 	File    string
 	ReplayConfirmed bool
 	CexOutput string
+	LightGoal string
 }
 
 type ModelVar struct {
